@@ -1,0 +1,109 @@
+//go:build verif
+
+// Contracts for the deductive checks under /verif (comment-only; no code).
+
+package mod
+
+// ---- abstractions of dependencies
+//@ ghost bufLen(b *bytes.Buffer) int = 0
+//@ func ext (*bytes.Buffer).Len
+//@   ensures result == bufLen(b) && result >= 0
+//@ func ext (*bytes.Buffer).Write
+//@   modifies bufLen(b)
+//@   ensures err == nil && n == len(p) && bufLen(b) == old(bufLen(b)) + len(p)
+//@ func ext (*bytes.Buffer).Reset
+//@   modifies bufLen(b)
+//@   ensures bufLen(b) == 0
+//@ spec nodeFileSize(n ipld.Node) uint64
+//@ func fileSize
+//@   assumed
+//@   ensures err == nil ==> result0 == nodeFileSize(n)
+
+// position at which the bytes of the next Write land: the end of the write buffer,
+// which starts at writeStart
+//@ macro buffered(dm) = ite(dm.wrBuf != nil, uint64(bufLen(dm.wrBuf)), 0)
+//@ macro landing(dm) = dm.writeStart + buffered(dm)
+// invariant kept by every operation: buffered data ends at the current offset
+//@ macro bufInv(dm) = dm.wrBuf != nil ==> dm.curWrOff == dm.writeStart + uint64(bufLen(dm.wrBuf))
+// single-cursor file model of the property: the next Write lands at the current offset
+//@ macro dmInv(dm) = dm.curWrOff == landing(dm)
+
+// the DAG rewriting half (modifyDag / appendData / dagTruncate) is not under contract: C10 bounded stand-in
+//@ func (*DagModifier).Sync
+//@   assumed
+//@   modifies dm.wrBuf, dm.writeStart, dm.curNode, dm.read, dm.readCancel
+//@   ensures[flushed] err == nil ==> dm.wrBuf == nil && dm.writeStart == old(landing(dm))
+//@   ensures[offset_kept] dm.curWrOff == old(dm.curWrOff)
+//@   ensures[nothing_buffered] old(dm.wrBuf) == nil ==> err == nil && dm.writeStart == old(dm.writeStart)
+//@ func (*DagModifier).expandSparse
+//@   assumed
+//@   modifies dm.curNode, dm.read, dm.readCancel
+//@   ensures err == nil ==> nodeFileSize(dm.curNode) == old(nodeFileSize(dm.curNode)) + uint64(size)
+//@ func iface github.com/ipfs/boxo/ipld/unixfs/io.DagReader.Seek
+
+//@ func (*DagModifier).Size
+//@   prop C10
+//@   arith bv
+//@   requires dm != nil
+//@   ensures[no_buffer] err == nil && dm.wrBuf == nil ==> result0 == int64(nodeFileSize(dm.curNode))
+//@   ensures[with_buffer] err == nil && dm.wrBuf != nil ==> result0 == ite(int64(nodeFileSize(dm.curNode)) > int64(bufLen(dm.wrBuf)) + int64(dm.writeStart), int64(nodeFileSize(dm.curNode)), int64(bufLen(dm.wrBuf)) + int64(dm.writeStart))
+
+//@ func (*DagModifier).Write
+//@   prop C10
+//@   arith bv
+//@   requires dm != nil
+//@   modifies dm.wrBuf, dm.writeStart, dm.curWrOff, dm.curNode, dm.read, dm.readCancel, bufLen(dm.wrBuf)
+//@   ensures[count] err == nil ==> result0 == len(b)
+//@   ensures[offset_advances] err == nil ==> dm.curWrOff == old(dm.curWrOff) + uint64(len(b))
+//@   ensures[appended_at_landing] err == nil ==> landing(dm) == old(landing(dm)) + uint64(len(b))
+//@   ensures[inv] old(dmInv(dm)) && err == nil ==> dmInv(dm)
+
+// "a write is never misplaced": when WriteAt hands the bytes to Write, the next bytes land at `offset`
+//@ func (*DagModifier).WriteAt
+//@   prop C10
+//@   arith bv
+//@   requires dm != nil && offset >= 0
+//@   requires[inv] bufInv(dm)
+//@   modifies all
+//@   site[landing_pos] call:DagModifier.Write : landing(dm) == uint64(offset)
+//@   site[offset_agrees] call:DagModifier.Write : dm.curWrOff == uint64(offset)
+//@   site[inv_kept] call:DagModifier.Write : dmInv(dm)
+//@   site[same_bytes] call:DagModifier.Write : arg1 == b
+
+// io.Seeker
+//@ func (*DagModifier).Seek
+//@   prop C10
+//@   arith bv
+//@   requires dm != nil
+//@   modifies all
+//@   ensures[seek_start] err == nil && whence == io.SeekStart ==> result0 == offset
+//@   ensures[seek_current] err == nil && whence == io.SeekCurrent ==> result0 == int64(old(dm.curWrOff)) + offset
+//@   ensures[seek_end] err == nil && whence == io.SeekEnd ==> result0 == res("call:DagModifier.Size#0") + offset
+//@   ensures[unknown_whence] whence != io.SeekStart && whence != io.SeekCurrent && whence != io.SeekEnd ==> err != nil
+//@   ensures[not_negative] err == nil ==> result0 >= 0
+//@   ensures[both_cursors] err == nil ==> dm.curWrOff == uint64(result0) && dm.writeStart == uint64(result0)
+//@   site[grow_by_gap] call:DagModifier.expandSparse : arg1 == int64(newoffset) - fisize
+
+// after a Read the next Write must continue where the Read stopped
+//@ func iface github.com/ipfs/boxo/ipld/unixfs/io.DagReader.Read
+//@ func iface github.com/ipfs/boxo/ipld/unixfs/io.DagReader.CtxReadFull
+//@ func (*DagModifier).readPrep
+//@   assumed
+//@   modifies dm.wrBuf, dm.writeStart, dm.curNode, dm.read, dm.readCancel
+//@   ensures[flushed] err == nil ==> dm.wrBuf == nil && dm.writeStart == old(landing(dm)) && dm.read != nil
+//@   ensures[offset_kept] dm.curWrOff == old(dm.curWrOff)
+//@ func (*DagModifier).Read
+//@   prop C10
+//@   arith bv
+//@   requires dm != nil
+//@   requires[inv] dmInv(dm)
+//@   modifies all
+//@   ensures[offset_advances] dm.curWrOff == old(dm.curWrOff) + uint64(result0) || err != nil && result0 == 0
+//@   ensures[write_follows_read] err == nil ==> dmInv(dm)
+//@ func (*DagModifier).CtxReadFull
+//@   prop C10
+//@   arith bv
+//@   requires dm != nil
+//@   requires[inv] dmInv(dm)
+//@   modifies all
+//@   ensures[write_follows_read] err == nil ==> dmInv(dm)
